@@ -377,7 +377,36 @@ func (fe *mslFE) parseTypeName(p *parser, q *mslDeclQuals) *TypeExpr {
 			n.Pos.unsupported(MSL, "type metal::%s", name)
 		}
 		tx.Name = name
-		fe.checkBuiltinTypeName(p, n, name, true)
+		if mslResourceTypeName(name) {
+			// textures and samplers are opaque handles: typed by their spelling
+			spelled := name
+			if p.isPunct("<") {
+				depth := 0
+				for {
+					tk := p.next()
+					if tk.Kind == TEOF {
+						tk.Pos.invalid(MSL, "syntax", "unterminated template argument list")
+					}
+					if tk.Kind == TPunct {
+						switch tk.Text {
+						case "<":
+							depth++
+						case ">":
+							depth--
+						case ">>":
+							depth -= 2
+						}
+					}
+					spelled += tk.String()
+					if depth <= 0 {
+						break
+					}
+				}
+			}
+			tx.Name = "%" + spelled
+		} else {
+			fe.checkBuiltinTypeName(p, n, name, true)
+		}
 	case t.Text == "long":
 		p.next()
 		if p.isWord("long") {
@@ -450,6 +479,12 @@ func (fe *mslFE) parseArrayDims(p *parser) []Expr {
 		dims = append(dims, e)
 	}
 	return dims
+}
+
+// mslResourceTypeName: texture, depth-texture and sampler types (MSL §2.9,
+// §2.10): opaque handles.
+func mslResourceTypeName(name string) bool {
+	return name == "sampler" || strings.HasPrefix(name, "texture") || strings.HasPrefix(name, "depth")
 }
 
 // ptrTypeName encodes a pointer type in a TypeExpr name (decoded by
@@ -962,6 +997,7 @@ func (fe *mslFE) directive(t Token) {
 
 func (fe *mslFE) parseExternalDecl(p *parser) *mslTop {
 	start := p.peek()
+	declStart := p.i
 	if start.Kind != TIdent && !fe.atAttr(p) {
 		start.Pos.invalid(MSL, "syntax", "unexpected %q at namespace scope", start.String())
 	}
@@ -1065,7 +1101,10 @@ func (fe *mslFE) parseExternalDecl(p *parser) *mslTop {
 		if q.Space != "" {
 			q.Pos.unsupported(MSL, "function returning an address-space qualified type")
 		}
-		d.Func = fe.parseFunction(p, tx, fi)
+		d.Func = fe.parseFunctionIsolated(p, declStart, name, tx, fi)
+		if d.Func == nil {
+			return nil
+		}
 		return d
 	}
 	// namespace-scope variables
@@ -1412,6 +1451,87 @@ func (fe *mslFE) parseFunction(p *parser, ret *TypeExpr, fi *mslFuncInfo) *Funct
 	fn.Body = p.parseBlock()
 	fe.inFunc = saved
 	return fn
+}
+
+// parseFunctionIsolated parses a function definition; when the function uses
+// a construct that is valid but not modelled, the whole function is skipped
+// and recorded (calls of it, and running it, are then unsupported) instead of
+// failing the translation unit: texts that carry vertex / fragment entry
+// points next to the kernels stay usable.
+func (fe *mslFE) parseFunctionIsolated(p *parser, declStart int, name Token, ret *TypeExpr, fi *mslFuncInfo) (fn *Function) {
+	nt, nv, depth := len(p.typeScopes), len(p.varScopes), p.depth
+	defer func() {
+		r := recover()
+		if r == nil {
+			return
+		}
+		b, ok := r.(bail)
+		if !ok {
+			panic(r)
+		}
+		ue, ok := b.err.(*UnsupportedError)
+		if !ok {
+			panic(r)
+		}
+		p.typeScopes, p.varScopes, p.depth = p.typeScopes[:nt], p.varScopes[:nv], depth
+		fe.inFunc = nil
+		p.i = fe.skipFunction(p, declStart)
+		fe.st.skipped[name.Text] = ue
+		fe.st.skippedList = append(fe.st.skippedList, mslSkipped{Name: name.Text, Stage: fi.Stage, Pos: name.Pos, Err: ue})
+		fe.st.userFuncs[name.Text] = true
+		fn = nil
+	}()
+	return fe.parseFunction(p, ret, fi)
+}
+
+// skipFunction returns the token index just after the function declaration
+// or definition that starts at token index i.
+func (fe *mslFE) skipFunction(p *parser, i int) int {
+	depth := 0
+	seenParams := false
+	for ; i < len(p.toks); i++ {
+		t := p.toks[i]
+		if t.Kind == TEOF {
+			return i
+		}
+		if t.Kind != TPunct {
+			continue
+		}
+		switch t.Text {
+		case "(", "[":
+			depth++
+		case ")", "]":
+			depth--
+			if depth == 0 && t.Text == ")" {
+				seenParams = true
+			}
+		case ";":
+			if depth == 0 && seenParams {
+				return i + 1
+			}
+		case "{":
+			if depth == 0 && seenParams {
+				braces := 0
+				for ; i < len(p.toks); i++ {
+					b := p.toks[i]
+					if b.Kind == TEOF {
+						return i
+					}
+					if b.Kind == TPunct && b.Text == "{" {
+						braces++
+					}
+					if b.Kind == TPunct && b.Text == "}" {
+						braces--
+						if braces == 0 {
+							return i + 1
+						}
+					}
+				}
+				return i
+			}
+		}
+	}
+	return i
 }
 
 // instantiate parses a fresh copy of the template's function definition (the
